@@ -287,7 +287,7 @@ def handle (ss : Session) : P (Session × String) := do
   | "w.cychyp" => do
     -- the hypotheses of `C06.accept_complete`, evaluated on the tables `connect` built
     let sims := ss.world.sims
-    pure (ss, s!"shaped={shapedB sims} nodup={nodupKeysB sims} const={constCutoffB sims} tshaped={shapedTB sims} tconst={constCutoffTB sims}")
+    pure (ss, s!"shaped={shapedB sims} nodup={nodupKeysB sims} const={constCutoffB sims} uniform={uniformB sims} tshaped={shapedTB sims} tconst={constCutoffTB sims}")
   | "w.anc" => do
     let orc ← listOf nat
     match cacheTriggeringAncestors ss.world.sims orc with
